@@ -24,6 +24,7 @@ func init() {
 			{ID: "C10.R3", Floor: 1, Run: c10r3, Text: "nil-return contract: a pointer result that is nil on some return path is not dereferenced by a caller (directly or through a callee that dereferences the parameter unconditionally) without a nil test"},
 			{ID: "C10.R5", Floor: 8, Run: c05r1, Text: "dead relation target (= C05.R1): every API-supplied target passes the zero-or-alive validation before it is stored, compared or used as a key, so that a dead target panics on every path, including no-op paths"},
 			{ID: "C10.R4", Floor: 20, Run: c10r4, Text: "option-pair discipline: a read of the value field of a value/flag pair that is compared, has its address taken, is returned or passed on alone lies where the flag of the same base is known true; otherwise it travels with the flag (paired copy or paired pass)"},
+			{ID: "C10.R6", Floor: 3, Run: c03r5, Text: "batch range consumption (= C03.R5): index arithmetic over a batch query uses the recorded [StartIndex, EndIndex) ranges, so an index past the batch is rejected instead of returning a row outside it"},
 		},
 	})
 }
